@@ -19,7 +19,7 @@
    evaluated in Coq, and every other member accepts the commit and reports the same lists.
    Statements only. *)
 From Coq Require Import NArith List Bool.
-From MlsV Require Import Filter FilterCases FilterProofs.
+From MlsV Require Import Filter FilterCases FilterProofs PathReqGen PathReqProofs.
 Import ListNotations.
 Local Open Scope N_scope.
 
@@ -37,6 +37,14 @@ Proof. exact retain_drops_by_ref. Qed.
 Theorem C10_every_stage_is_lawful : forall g, Forall lawful (stages g) /\ lawful_last (st_adds g).
 Proof. exact all_stages_lawful. Qed.
 
+(* path_update_required as read by the translator from proposal_filter.rs (regenerated on every
+   run) is the model's rule: an update path is required iff the list is empty or holds an
+   Update, Remove, ExternalInit or GroupContextExtensions proposal, or a custom proposal that the
+   application's rules flag *)
+Theorem C10_translated_path_rule_is_the_model : forall cust l,
+  gen_path_required (bundle_of cust l) = cust || needs_path l.
+Proof. exact gen_path_required_is_model. Qed.
+
 (* non-vacuity: committer 0; an update of leaf 2 twice, a removal of the committer, a removal of
    leaf 1 by reference and an add by value: the committer keeps the first update, the removal of
    leaf 1 and the add; a receiver accepts exactly that list *)
@@ -52,3 +60,4 @@ Print Assumptions C10_committer_and_receiver_agree.
 Print Assumptions C10_receiver_applies_all_or_nothing.
 Print Assumptions C10_only_by_reference_proposals_are_dropped.
 Print Assumptions C10_every_stage_is_lawful.
+Print Assumptions C10_translated_path_rule_is_the_model.
